@@ -16,7 +16,7 @@ from props.graphfacts import conclude, replay  # noqa: F401
 from props.c15 import split_tree
 
 THEOREMS = ["Rva.region_marks_columns", "Rva.sortDiags_sorted", "Rva.lint_titles_nonempty",
-            "Rva.lint_severity_functional", "Rva.lint_tables_total", "Rva.excerpt_aligned", "Rva.marker_cells"]
+            "Rva.lint_severity_functional", "Rva.lint_tables_total", "Rva.excerpt_aligned", "Rva.marker_cells", "Rva.marker_under_reported"]
 
 LEVELS = {"Error", "Warning", "Info", "Hint"}
 
@@ -118,6 +118,14 @@ def run(res, tier, seed):
             s = ("main:\n    li t0, 1\n    sw t0, 4(sp)\n    lw t1, 8(sp)\n    lb t2, 0(sp)\n    add a0, t1, t2\n    jal f\n"
                  "    li a7, 10\n    ecall\nf:\n    addi sp, sp, -8\n    lw t3, 8(sp)\n    sh t3, 12(sp)\n    mv a0, t3\n    addi sp, sp, 8\n    ret\n")
         s = "".join(ch for ch in s if ord(ch) < 128 or ch == "é")
+        if j == 5 or (j > 5 and rng.random() < 0.05):
+            # indentation the lexer does not take for blank space (no-break space, form feed, vertical tab):
+            # reported where it stands, and it has to be in the excerpt above its marker
+            ls = s.split("\n")
+            q = rng.randrange(1, max(2, len(ls)))
+            ls.insert(q, rng.choice(["\u00a0\u00a0", "\x0c  ", " \x0b", "\u00a0"]) + "addi a0, a0, 1")
+            s = "\n".join(ls)
+            stats["odd_indentation"] = stats.get("odd_indentation", 0) + 1
         if j == 2:
             s = "\ufeff" + s          # a file saved with a byte order mark: every channel sees the same first line
         d = os.path.join(root, str(j))
@@ -255,13 +263,14 @@ def run(res, tier, seed):
                     if w[3] >= len(src):
                         continue
                     text = src[w[3]]
-                    fnw = len(text) - len(text.lstrip())
                     stats["pretty_excerpts_checked"] += 1
-                    ok = (line == w[3] and shown == text.strip() and cstart == max(0, w[4] - fnw)
-                          and clen == w[5] + 1 - w[4])
+                    # the shown line is the source line (ends cut), and the cells that carry a marker are
+                    # the reported characters - whatever was cut from the left (an oracle that re-derived the
+                    # cut the way the printer does it agreed with a printer that cut the reported character)
+                    tail = text[w[4]:].rstrip()
+                    ok = (line == w[3] and shown.strip() == text.strip() and clen == w[5] + 1 - w[4]
+                          and shown[cstart:].rstrip() == tail)
                     REGION_CASES.append((text, w[3], w[4], w[5], title, d, ex3))
-                    if "\t" in text[:w[4]]:
-                        ok = ok or (line == w[3] and clen == w[5] + 1 - w[4])   # tabs are kept as tabs
                     if not ok and first is None:
                         first = {"what": f"excerpt of {title!r}: shows line {line} {shown!r} with {clen} markers from "
                                          f"column {cstart}; reported is line {w[3]} columns {w[4]}..{w[5]} of {text!r}",
